@@ -483,12 +483,13 @@ def run_configurations(ctx, log, thorough):
     with fx.TempDir() as root:
         fx.reset_all()
         try:
-            sw = fc.run(ctx, vecs, root, log, thorough)
+            sw = fc.run(ctx, vecs, root, log, thorough, check=False)      # (self-check: after TLC has validated the events)
         finally:
             fx.reset_all()
     ctx.note('configuration alphabet: %d exported classes; %d table-object and %d fresh-model twin evaluations under them'
              % (len(vecs), sw.done['table'], sw.done['model']))
     ctx.add_sample(dict(configuration_class=vecs[len(vecs) // 2]))
+    return sw
 
 
 def replay_configurations(ctx, vs):
@@ -579,8 +580,10 @@ def run(ctx):
     for cfg in (['EX_KTable_quick.cfg', 'EX_KTable_quick3.cfg'] if q else ['EX_KTable_thorough.cfg', 'EX_KTable_quick3.cfg']):
         run_vectors(ctx, cfg, cfg[3:-4])
     log = run_histories(ctx, 6 if q else 24, not q)
-    run_configurations(ctx, log, not q)
+    sweep = run_configurations(ctx, log, not q)
     run_traces(ctx, 40 if q else 400, extra=log.events)
+    if not ctx.has_violations():
+        sweep.self_check()          # the configuration alphabet was realised and the scheme does enter between nodes
 
 
 def replay(ctx, violations):
